@@ -22,6 +22,8 @@ CLAIMED={
         "Trusted: engine, interpreted net/http request parser, cvc5/z3. Out: http.Transport serialisation and Accept-Encoding, upstream-proxy and MITM transports (same modifier path), site credentials/header rules (C06/C16), bodies near 4 KiB/32 KiB buffers, longer header lists."),
  "C02":("The real connection loop writes the responses of a scripted origin (status pool, <=2 header fields from a pool with symbolic values, 3 symbolic body bytes delimited by Content-Length / unknown length / with trailer, GET/HEAD, HTTP/1.0 and 1.1 clients, two exchanges per connection) and the captured bytes are parsed back: k-th response answers k-th request, end-to-end fields and body intact, nothing beyond the messages; the manual head writer for HEAD/1xx/204/304 (symbolic reason, fields, trailers) ends in exactly one empty line; the pattern flush writer flushes whenever a chunk/event boundary completes, also split across writes.",
         "Trusted: engine, interpreted net/http writer and reader, cvc5/z3. Out: gzip handling in Transport, timing of delivery, bodies around 4 KiB/32 KiB, response-header rules (C16), the http.Handler variant."),
+ "C12":("errorResponse and its 12 classifiers on every error of a constructor pool (OpError timeout/non-timeout, TLS record header with symbolic bytes, certificate, alert, carried status, own refusals, cancelation, unclassified; bare/%w/url.Error wrapped) against the status table; faults injected at the next hop of the real connection loop (round-trip error, CONNECT dial failure, client write failure after k bytes): one complete parseable error response per request or a close; arbitrary client byte streams (6 prefixes + 4/8 symbolic bytes) through the real request parser never panic and leave a well-formed or empty output and zero open connections.",
+        "Trusted: engine, interpreted net/http, error-chain model (errors.Is/As over real Unwrap/Is/As methods), cvc5/z3. Out: truncation of real upstream replies inside http.Transport, TLS listeners, process-level liveness on real sockets, longer hostile streams, non-ASCII junk."),
 }
 NA={
  "C14":"deciding code is the goja JavaScript VM executing PAC scripts; not encodable by a Go-SSA symbolic executor (result-list parsing is covered under C05)",
